@@ -110,7 +110,24 @@ def nt_ufs(mode, case):
     return None
 
 
-NONTRIVIAL = {"C14": nt_ufs, "C15": nt_ufs, "C20": nt_log, "C01": nt_codec, "C02": nt_codec, "C13": nt_recv}
+def nt_srvseq(mode, case):
+    # non-trivial: a history with at least 3 requests of which one was forwarded; distinct by content
+    return h(case[:200000]) if case.count(" Q ") >= 3 and " FWD " in case else None
+
+
+def nt_clnt(mode, case):
+    t = case.split()
+    if t[0] == "CL":
+        return h(case) if int(t[1]) >= 2 else None      # at least two concurrent calls
+    return h(case)
+
+
+def nt_tree(mode, case):
+    return h(case[:100000])
+
+
+NONTRIVIAL = {"C04": nt_srvseq, "C05": nt_srvseq, "C12": nt_srvseq, "C09": nt_clnt, "C10": nt_clnt,
+              "C16": nt_tree, "C17": nt_tree, "C18": nt_tree, "C14": nt_ufs, "C15": nt_ufs, "C20": nt_log, "C01": nt_codec, "C02": nt_codec, "C13": nt_recv}
 
 
 def nontrivial_key(prop, mode, case):
@@ -158,6 +175,65 @@ PROPS = {
         "rule": "directories of 0, 1, 2, 5, 50 (thorough: up to 5000) entries with name lengths 1..255 on a scratch tree, msize {512, 4096, 65536}, both dialects; listings following the offset rule for every count from the largest entry size to three entries (exhaustive for small directories), random counts otherwise, too-small counts (max-1, 1, 0, first-1), restart at offset 0 mid-listing, arbitrary offsets (past the end, inside an entry, on boundaries) with counts 0/max/iounit, and the client's Readdir(0). Oracle (from the decoded record sizes and os.ReadDir only): every reply consists of whole entries, <= count bytes, offsets chain, complete set exactly once, error iff the next entry does not fit; correspondence: the Coq dir_window/listing model fed with the observed entry sizes predicts the same chunks and outcome. Non-trivial: a listing of >= 2 replies or a too-small case, and every off-rule offset case; distinct by content.",
         "level_text": "Coq theorems (Props/C15.v) over the arithmetic model (Go int as Z) of the directory branch of Ufs.Read: for every listing (any number of entries, any positive sizes), every offset and count: a reply consists of whole consecutive entries of at most count bytes and is non-empty while entries remain; following the offset rule with counts >= the largest entry yields every entry exactly once in order and then an empty reply; a count too small for the next entry is an error; Readdir(0) gets everything; off-rule offsets are refused or empty and never an ill-formed slice. Tied to the code by listings of real directories.",
         "level_note": "Trusted: Coq kernel, extraction + OCaml driver, Go harness. The snapshot (entry sizes and order) comes from the OS and is an input of the model; UnpackDir correctness is C01. Print Assumptions: closed under the global context.",
+    },
+    "C04": {
+        "clauses": ["C04"],
+        "modes": [{"name": "srvseq-random", "harness": "srvseq", "modelcheck": "srvseq", "args": ["random"]},
+                  {"name": "srvseq-product", "harness": "srvseq", "modelcheck": "srvseq", "args": ["product"]}],
+        "rule": "real server + scripted implementation over net.Pipe, one request at a time: random histories of 20-80 (thorough: up to 2000) requests over the fid numbers {0,1,2,7,NOFID-1,NOFID} (attach/auth/walk full, partial, failing, in place/open/create/read/write/stat/clunk/remove/flush) with implementation success or error, Tstat probes on every fid of the universe, both dialects, with and without AuthOps, msize from 24 up; plus the exhaustive (fid state x request) product. Every reply (bytes) and every event (forwarded operation with fid/user/arguments, AuthCheck, FidDestroy, ConnClosed) is compared with the Coq model seq_step; the oracle maintains the abstract fid set from the replies (spec_step) and checks unknown-fid / fid-in-use refusals, user binding, destroy-exactly-once. Non-trivial: >= 3 requests with at least one forwarded; distinct by content.",
+        "level_text": "Coq theorems (Props/C04.v) over the sequential server model (Process, PostProcess, FidGet/FidNew/IncRef/DecRef, every srv.<op> handler and post-handler): for EVERY history and whatever the implementation answers, each remaining fid has exactly one reference between requests, the concrete table equals the abstract fid set the statement defines (valid only via successful Tauth/Tattach/complete Twalk, invalid after successful Tclunk or any Tremove, unchanged otherwise, users preserved), invalid fids are refused with 'unknown fid' and bound fids with 'fid already in use' without reaching the implementation, and FidDestroy is emitted exactly once, in the step that invalidates the fid. Tied to the code by byte-exact comparison of replies and event-exact comparison of what the implementation is shown.",
+        "level_note": "Trusted: Coq kernel; translator for error texts/numbers, IOHDRSZ/MSIZE/NOFID/NOUID and the QT*/DM*/O* bits; extraction + OCaml driver; the Go harness (scripted implementation, net.Pipe transport). One request at a time (the concurrent life cycle is C03/C07/C08/C11); the user database is the default OsUsers; the implementation is an arbitrary input (script) answering with the matching R-message or an error; the reply buffer is modelled by its capacity. Print Assumptions: closed under the global context. With msize below 13+len(text) the error text is truncated (theorems carry that hypothesis). Fid numbers private to a connection: connections share no fid state in the model (one table per conn), checked by the harness only through separate sessions.",
+    },
+    "C05": {
+        "clauses": ["C05"],
+        "modes": [{"name": "srvseq-product", "harness": "srvseq", "modelcheck": "srvseq", "args": ["product"]},
+                  {"name": "srvseq-random", "harness": "srvseq", "modelcheck": "srvseq", "args": ["random"]}],
+        "rule": "exhaustive product: fid state {absent, directory, open directory, file, auth fid, file open with each of OREAD/OWRITE/ORDWR/OEXEC and OTRUNC/ORCLOSE variants} x every request kind x open modes (quick: 15 representatives, thorough: all 256) x permission bits {none, DMDIR, each special bit, combinations} x counts {0, 1, msize-25, msize-24, msize-23, msize, 2^31, 2^32-25 .. 2^32-1} x both dialects x AuthOps on/off x AuthCheck accept/refuse, each followed by a Twrite and Tstat probes (effects visible to later requests); plus random histories. Oracle: forwarded <=> fid_ok && rules_ok (the statement's table, evaluated on the reference state), refused => Rerror, forwarded once with the client's fid/user/arguments, AuthCheck before Attach; correspondence: replies and events equal the model's. Non-trivial: >= 3 requests with at least one forwarded; distinct by content.",
+        "level_text": "Coq theorems (Props/C05.v): for EVERY connection state satisfying the invariant, EVERY request (all 32-bit counts, all modes and permission bits) and whatever the implementation: the request is forwarded iff its fid is valid and the statement's rule table allows it; the 32-bit count guard as written equals count+IOHDRSZ <= msize over the naturals; a forwarded request is forwarded once with the fid, user and arguments the client named; a refused one is answered with Rerror; with AuthOps an attach is forwarded only after AuthCheck accepted it; every step re-establishes the state the next request is judged in. Tied to the code by the exhaustive product run.",
+        "level_note": "Trusted: Coq kernel; translator for error texts/numbers, IOHDRSZ/MSIZE/NOFID/NOUID and the QT*/DM*/O* bits; extraction + OCaml driver; the Go harness (scripted implementation, net.Pipe transport). One request at a time (the concurrent life cycle is C03/C07/C08/C11); the user database is the default OsUsers; the implementation is an arbitrary input (script) answering with the matching R-message or an error; the reply buffer is modelled by its capacity. Print Assumptions: closed under the global context.",
+    },
+    "C12": {
+        "clauses": ["C12"],
+        "modes": [{"name": "srvseq-version", "harness": "srvseq", "modelcheck": "srvseq", "args": ["version"]},
+                  {"name": "srvseq-random", "harness": "srvseq", "modelcheck": "srvseq", "args": ["random"]}],
+        "rule": "grid server msize x client msize over {0, 1, 23, 24, 25, 64, 100, 4096, 8191, 8192, 8193, 1 MiB+24, 2^32-1} x server dialect x version strings {9P2000, 9P2000.u, 9P2000.L, empty, junk, near misses}; after negotiation replies of every kind incl. a 255-byte-name Rstat, 16-qid Rwalk, 300-byte Rerror, reads with counts up to the limit, and a second Tversion lowering msize mid-session so replies go through recycled buffers; random histories with frames above msize. Oracle: Rversion = min / dialect conjunction, small msize refused, no reply longer than the msize in force, replies decodable in the negotiated dialect, oversize or undecodable frames answered by nothing and executing nothing. Non-trivial: >= 3 requests with at least one forwarded; distinct by content.",
+        "level_text": "Coq theorems (Props/C12.v): Tversion yields exactly min(client msize, connection msize) and 9P2000.u only if the client asked for it and the server supports it, an msize below IOHDRSZ is refused leaving the connection unchanged; for EVERY later request and whatever the implementation answers no reply is longer than the msize in force when the request arrived (too long replies and error texts are replaced/truncated as the code does); msize stays within [IOHDRSZ, server msize]; the framing specification the receive loop is proved equal to (C13) never delivers a frame above msize or below a header. Tied to the code by the negotiation grid with byte-exact reply comparison.",
+        "level_note": "Trusted: Coq kernel; translator for error texts/numbers, IOHDRSZ/MSIZE/NOFID/NOUID and the QT*/DM*/O* bits; extraction + OCaml driver; the Go harness (scripted implementation, net.Pipe transport). One request at a time (the concurrent life cycle is C03/C07/C08/C11); the user database is the default OsUsers; the implementation is an arbitrary input (script) answering with the matching R-message or an error; the reply buffer is modelled by its capacity. Print Assumptions: closed under the global context. Rread never carrying more than Tread asked for is the Ufs read model of C14 (pread clamps to count); the client side of the negotiation (Connect adopting min / conjunction) is exercised by the C09/C10/C14 harness sessions, not modelled.",
+    },
+    "C09": {
+        "clauses": ["C09"],
+        "modes": [{"name": "clnt", "harness": "clnt", "modelcheck": "clnt"}],
+        "rule": "real Clnt against a scripted peer over a segment-exact fake transport: 1..5 concurrent calls with EVERY reply order (all permutations up to 4, random for 5), 16 and 64 concurrent callers in random order, reply kinds {matching R, Rerror, mismatched R} with payloads derived from each request, reply streams delivered whole, randomly split or one byte at a time; a soak of 3000 (thorough: 70000 > 65535) consecutive calls. Oracle: each call returns the payload derived from its own request and the outcome of its reply kind, tags seen by the peer pairwise distinct, soak never stalls and reuses tags; correspondence: the canonical schedule through the Coq client LTS gives the same outcome per call and conserves the tag pool. Non-trivial: >= 2 concurrent calls; distinct by content.",
+        "level_text": "Coq theorems (Props/C09.v) over the client LTS (ReqAlloc/ReqFree, tag pool and Req cache, Rpcnb's critical section, hand-over to the send goroutine, recv's matching and delivery) for ANY number of callers, ANY schedule and ANY frames the peer sends: tags of live requests, cached Reqs and the pool are pairwise distinct and conserved (so a tag is available whenever fewer than 65535 calls are outstanding); the result a call returns is the frame matched with its own request, carrying its wire tag, received after the request was linked, and no frame goes to two requests; Rerror / wrong type / matching type map to error / error / success; a frame goes to the earliest-linked pending request with its tag (Tag interface FIFO).",
+        "level_note": "Trusted: Coq kernel; translator (NOTAG, reqchan capacity 16); extraction + OCaml driver; Go harness. The tie is a correspondence on outcomes through a canonical schedule (the client has no schedule-point replay, unlike the server); frame contents are abstracted to (tag, kind); Fcall buffer recycling (tchan) is not modelled. Print Assumptions: closed under the global context.",
+    },
+    "C10": {
+        "clauses": ["C10"],
+        "modes": [{"name": "clnt", "harness": "clnt", "modelcheck": "clnt"}],
+        "rule": "scripted sessions with 0..4 outstanding calls: the server-to-client stream cut after every byte offset (quick: every 7th), EOF, garbage / oversize (> 8*msize) / undersize frames, a reply with an unknown tag, Unmount during calls; a later call after each failure; callers held by the hook rpcnb.linked between linking their request and handing it to the send goroutine while the failure strikes. Every call must return within 3 s. Oracle: no call hangs, a call succeeds only if its complete reply was delivered, replies complete before the failure are delivered, later calls are refused; correspondence: canonical schedule through the Coq client LTS. Non-trivial: >= 2 calls; distinct by content.",
+        "level_text": "Coq theorems (Props/C10.v) over the client LTS with its shutdown path (clnt.err, close(done), detaching the pending list, reporting the error to each pending request): in EVERY reachable state after a failure, while some call has not returned the client can take a step by itself and every such step decreases a bound, hence all outstanding and later calls return (no deadlock, no livelock); later calls are refused without touching the transport; success implies a complete reply frame was received; a reply matched before the failure is never replaced by the connection error; the receive loop turns bad frames into a failure and never reads with an empty buffer. 'Within bounded time' is rendered as a bound on the client's own steps.",
+        "level_note": "Trusted: Coq kernel; translator; extraction + OCaml driver; Go harness with the hook rpcnb.linked. Wall-clock bounds are only measured by the harness (3 s deadline); Unmount is exercised by the oracle only (it sets clnt.err from the caller's goroutine, which the LTS models as a failure noticed by recv). Print Assumptions: closed under the global context.",
+    },
+    "C16": {
+        "clauses": ["C16"],
+        "modes": [{"name": "ufstree-meta", "harness": "ufstree", "modelcheck": "ufstree", "args": ["meta"]}],
+        "rule": "random trees on a scratch directory (names with spaces, non-ASCII bytes, dots, 255-byte names; files, directories, symlinks, hard links; a 40-level chain so client walks need several Twalks): FStat of every object in both dialects compared field by field with os.Lstat (qid type/path, DMDIR, DMSYMLINK, permission bits, length, mtime, name); walks of 1..15 elements of which a prefix exists, in place and to a new fid, compared with os.Lstat (qid count and inodes, error when the first is missing) and with the host path each fid designates afterwards (accessor VerifUfsFidPath); deep and missing paths through FStat. The Coq metadata mapping is evaluated on the Lstat facts and compared with the reply. Distinct by content.",
+        "level_text": "Coq theorems (Props/C16.v) over the model of Ufs.Walk (for ANY tree, given as an arbitrary existence oracle, any fid path and any name list): every walked element exists and the next does not, Rwalk carries that many qids, a missing first element is an error, and the new fid moves only when every element was walked (otherwise both fids stay); the client's FWalk in chunks of 16 names resolves exactly like one walk at any depth; qid type, DMDIR/DMSYMLINK, permission bits and qid path are functions of the file's metadata as the statement lists. Tied to the code by trees compared against os.Lstat.",
+        "level_note": "Trusted: Coq kernel; extraction + OCaml driver; Go harness (spy wrapper around Ufs using the build-tagged accessor for fid paths). The tree is an oracle in the model: real Lstat/inode semantics, user and group name lookup and walks through symlinks are outside the model (compared with the OS by the harness only). Print Assumptions: closed under the global context.",
+    },
+    "C17": {
+        "clauses": ["C17"],
+        "modes": [{"name": "ufstree-mutate", "harness": "ufstree", "modelcheck": "ufstree", "args": ["mutate"]}],
+        "rule": "random sequences of 14 mutations (create with all open modes incl. OTRUNC on free and occupied names and under non-directories, mkdir, symlink incl. dangling targets, write at random offsets, remove of files / empty and non-empty directories / missing names, rename to free and occupied names, truncate 0..beyond size, chmod, set mtime) applied through 9P to tree A and, using the statement's table, with os/syscall to a twin tree B; after EVERY step the trees are compared recursively (names, kinds, permission bits, contents, link targets) and the outcome and, in 9P2000.u, the error number are compared with the POSIX call on B. Distinct by content.",
+        "level_text": "Coq theorems (Props/C17.v) over the decision logic of the mutating handlers: all 256 open modes map to the access mode and O_TRUNC the statement lists (reflection over the finite domain); for every create request the system calls issued contain exactly the one corresponding POSIX operation (mkdir / symlink / link / open(O_CREAT) with the masked permission bits) and nothing else that can change the tree; a wstat with all don't-touch values does nothing, rename targets are confined and truncate/chtimes act on the renamed path. What those system calls do to the tree is the operating system's: it is validated, not proved, by the twin-tree differential after every step.",
+        "level_note": "Partial by design: the handlers' choice of system calls is proved, POSIX semantics are an oracle (twin tree). Trusted: Coq kernel; extraction; Go harness. Ownership changes (chown, user lookup) are not modelled; the harness runs as root, so permission denials are not exercised. Print Assumptions: closed under the global context.",
+    },
+    "C18": {
+        "clauses": ["C18"],
+        "modes": [{"name": "ufstree-confine", "harness": "ufstree", "modelcheck": "ufstree", "args": ["confine"]}],
+        "rule": "scratch layout outer/{canary files and directories}, outer/root/...; sessions of attach names, walk element lists, create names (files and symlinks with hostile targets) and wstat rename targets drawn from a grammar of '..', '.', '', '/', 'a/../..', absolute paths, deep '../' chains and mixtures with real names, each followed by stat/write/remove; the host path every fid designates is read through the accessor. Oracle: every fid path has the root as prefix, the canaries (content, kind, permissions, existence) are unchanged, no reply carries the inode of an outside object; correspondence: the Coq path functions (attach_path, walk_step/ufs_walk, create_path, rename_dest, symlink_ok) predict the same paths and refusals, given the listing of the tree. Distinct by content.",
+        "level_text": "Coq theorems (Props/C18.v) over the model of the host paths Ufs computes with Go's lexical path functions: for ANY root, ANY byte strings as attach name, walk elements, create name, rename target and symlink target, and ANY tree: attach stays under the root, every walk step stays under the root ('..' at the root stays, elements containing '/' name nothing), create names and rename targets are confined or refused, an accepted symlink cannot lead out of its directory, and by induction over ANY request sequence every host path handed to the operating system and every fid stay under the root.",
+        "level_note": "Partial w.r.t. the kernel: path resolution is modelled lexically (sound for a tree without symlinks leaving it, which the property assumes and which the create check preserves). Trusted: Coq kernel; extraction; Go harness and the accessor. Print Assumptions: closed under the global context.",
     },
     "C13": {
         "modes": [{"name": "recv", "harness": "recv", "modelcheck": "recv"}],
